@@ -118,10 +118,25 @@ def _one(pid, m, repo):
                 results.append((m['name'], 'killed' if hit else 'MISSED', 'rc=%d %s' % (r.returncode, _viol(out))))
             else:
                 ok = r.returncode == 0
-                results.append((m['name'], 'silent' if ok else 'FALSE-ALARM', 'rc=%d %s' % (r.returncode, _viol(out))))
+                st = 'silent' if ok else 'FALSE-ALARM'
+                if r.returncode == 2 and (m['name'].split(':')[-1], pid) in _undecided():
+                    st = 'undecided'      # documented: the check says it cannot read this form (exit 2), it does not report a violation
+                results.append((m['name'], st, 'rc=%d %s' % (r.returncode, _viol(out))))
         finally:
             shutil.rmtree(tmp, ignore_errors=True)
     return results
+
+
+def _undecided():
+    """(refactoring, property) pairs for which analysis-broken is the documented outcome: sa/selftest/benign/UNDECIDED.txt"""
+    out = set()
+    p = os.path.join(HERE, 'benign', 'UNDECIDED.txt')
+    if os.path.exists(p):
+        for ln in open(p):
+            ln = ln.split('#')[0].split()
+            if len(ln) >= 2:
+                out.add((ln[0], ln[1]))
+    return out
 
 
 def _viol(out):
